@@ -525,7 +525,21 @@ void run_case(vf::Case& c)
     x.desc       = show(x.shape, x.p->rank);
     x.h          = vf::mix(hash_arr(x.shape, x.p->rank, (VF_PLO + k * VF_PSTEP) * 131 + 19), x.group);
     x.nontrivial = x.p->rank > 0;
-    if (vf::want_sample("shape")) { vf::sample("shape", "extents<%s,%s> shape %s group %u: all %lld multi-indices", IDXN, x.p->name, x.desc.c_str(), x.group, product(x.shape, x.p->rank)); }
+    {
+        static char const* const gname[NGROUP] = {"layout_left", "layout_right", "layout_stride", "layout_transpose"};
+        std::string const lab = std::string("map:") + x.p->cls;
+        if ((x.p->rank == 0 || product(x.shape, x.p->rank) > 1) && vf::want_sample(lab.c_str())) {
+            Arr last{};
+            for (std::size_t r = 0; r < x.p->rank; ++r) { last[r] = x.shape[r] - 1; }
+            vf::sample(lab.c_str(), "%s::mapping<extents<%s,%s>> shape %s: all %lld multi-indices; model: last index %s -> offset %lld (column-major) / %lld (row-major)", gname[x.group], IDXN,
+                x.p->name, x.desc.c_str(), product(x.shape, x.p->rank), show(last, x.p->rank).c_str(), model_left(x.shape, x.p->rank).off(last), model_right(x.shape, x.p->rank).off(last));
+        }
+        if (vf::want_sample("unobservable")) {
+            vf::sample("unobservable", "declared but not defined upstream, never called by this unit and NOT counted as passed: layout_stride::mapping::is_exhaustive(), its operator==, "
+                                       "layout_stride::mapping(StridedLayoutMapping const&), layout_left/right::mapping(layout_stride::mapping const&) (probe units C19_probe_stride_exh/_eq/_from, "
+                                       "C19_probe_canon_from_stride fail to link); submdspan is commented out upstream");
+        }
+    }
     crumb_op(x, std::string("extents<") + IDXN + ">", "setup:extents(OtherIndexTypes...):N=rank_dynamic"); // faults before an operation's own breadcrumb
     dispatch<Run>(k, x);
 }
